@@ -161,18 +161,24 @@ Proof.
   apply bind_Panic_inv in H. destruct H as [H|(d' & _ & H)]; [exact (poke_u32_no_panic _ _ _ _ _ H) | exact (IH _ _ _ _ H)].
 Qed.
 
-Theorem serialize_no_panic kf m a p : a_cstrs a = [] -> size a < U32 -> serialize_k kf m a <> Panic p.
+(* serialize never panics, on ANY archive, in either profile: the only arithmetic that could (the u32 addition of data size and
+   c-string pool size in the header) sits behind the 32-bit guard of fix 524d15f (finding F25), where both summands are exact
+   and their sum is below the file size *)
+Theorem serialize_no_panic_all kf m a p : serialize_k kf m a <> Panic p.
 Proof.
-  intros Hc Hs. unfold serialize_k. rewrite Hc.
-  change (isort (fun x y : bytes * list N => bytes_leb (fst x) (fst y)) []) with (@nil (bytes * list N)).
-  cbn [cstr_pool]. change (pad_to 4 (p_raw pool_empty)) with (@nil N). intros H.
+  unfold serialize_k. destruct (cstr_pool _ _ _ _) as [cpool cptrs]. intros H.
   apply bind_Panic_inv in H. destruct H as [H|(d1 & _ & H)]; [exact (poke_all_no_panic _ _ _ _ H)|].
   destruct (emit_labels _ pool_empty []) as [tp1 rl].
   apply bind_Panic_inv in H. destruct H as [H|([[d2 tp2] g] & _ & H)]; [exact (emit_text_no_panic _ _ _ _ _ _ _ H)|].
-  apply bind_Panic_inv in H. destruct H as [H|(dsz & _ & H)]; [|discriminate].
-  change (lenN []) with 0 in H. change (trunc_w 32 0) with 0 in H.
-  rewrite trunc_small in H by exact Hs. rewrite add_w_ok in H; [discriminate|]. unfold maxw. change (2 ^ 32) with U32. lia.
+  apply bind_Panic_inv in H. destruct H as [H|([] & G & H)].
+  - unfold guard in H. destruct (_ <=? 4294967295); discriminate.
+  - unfold guard in G. match type of G with (if ?c then _ else _) = _ => destruct c eqn:Ec end; [|discriminate].
+    apply N.leb_le in Ec.
+    apply bind_Panic_inv in H. destruct H as [H|(dsz & _ & H)]; [|discriminate].
+    rewrite !trunc_small in H by (unfold U32; lia). rewrite add_w_ok in H; [discriminate|]. unfold maxw. lia.
 Qed.
+Theorem serialize_no_panic kf m a p : a_cstrs a = [] -> size a < U32 -> serialize_k kf m a <> Panic p.
+Proof. intros _ _. apply serialize_no_panic_all. Qed.
 
 Theorem reserialize_no_panic kf e f a m p : wfb f -> from_bytes e f = Ok a -> serialize_k kf m a <> Panic p.
 Proof. intros Hw H. destruct (from_bytes_shape e f a Hw H) as [Hc Hs]. apply serialize_no_panic; assumption. Qed.
